@@ -72,6 +72,10 @@ fn dispatch(session: &mut Session, cmd: &J) -> Result<J, String> {
 		"ser" => op_ser(session, cmd),
 		"de" => op_de(session, cmd),
 		"ser_de" => op_ser_de(session, cmd),
+		"writer" => crate::container::op_writer(session, cmd),
+		"walk" => crate::container::op_walk(cmd),
+		"assemble" => crate::container::op_assemble(cmd),
+		"reader" => crate::container::op_reader(cmd),
 		"schema_graph" => {
 			let b = session.schema(&cmd["schema"]);
 			Ok(match b {
